@@ -80,10 +80,10 @@ theorem enabled_empty_terminal (p : Shape) (s : St) (h : (enabled p s).isEmpty =
     simp at this
 
 /-- **an accepted trace is a terminating run of the model** -/
-theorem conf_ok_sound (p : Shape) (srcs : List Nat) (faults : List Fault) (evs : List Ev) (s : St) (idx : Nat)
-    (h : confRun p s idx evs = .ok) :
+theorem conf_ok_sound (p : Shape) (srcs : List Nat) (faults : List Fault) (widths : List Nat) (evs : List Ev) (s : St) (idx : Nat)
+    (h : confRun p widths s idx evs = .ok) :
     ∃ run s', exec (sys p srcs faults) s run = some s' ∧ ∀ a, act p s' a = none := by
-  fun_induction confRun p s idx evs
+  fun_induction confRun p widths s idx evs
   case case2 s _ he => exact ⟨[], s, rfl, enabled_empty_terminal p s he⟩
   case case8 ih => exact ih h
   case case10 a _ s1 hact ih =>
@@ -95,11 +95,11 @@ theorem conf_ok_sound (p : Shape) (srcs : List Nat) (faults : List Fault) (evs :
 
 /-- consequence: when the driver accepts a trace recorded with source script `0..N-1`, the model state reached has
     every one of the N lineages in its sink log (`terminal_delivered`), whatever happened in between -/
-theorem conf_ok_delivers (p : Shape) (hw : p.WF) (n : Nat) (faults : List Fault) (evs : List Ev)
-    (h : confRun p (init (List.range n) faults) 0 evs = .ok) :
+theorem conf_ok_delivers (p : Shape) (hw : p.WF) (n : Nat) (faults : List Fault) (widths : List Nat) (evs : List Ev)
+    (h : confRun p widths (init (List.range n) faults) 0 evs = .ok) :
     ∃ run s', exec (sys p (List.range n) faults) (init (List.range n) faults) run = some s' ∧
       ∀ l, l < n → 1 ≤ delivered s' l := by
-  obtain ⟨run, s', hr, ht⟩ := conf_ok_sound p (List.range n) faults evs _ 0 h
+  obtain ⟨run, s', hr, ht⟩ := conf_ok_sound p (List.range n) faults widths evs _ 0 h
   refine ⟨run, s', hr, ?_⟩
   intro l hl
   have hreach : Reach (sys p (List.range n) faults) s' :=
@@ -107,9 +107,16 @@ theorem conf_ok_delivers (p : Shape) (hw : p.WF) (n : Nat) (faults : List Fault)
   exact (terminal_delivered p (List.range n) faults hw s' hreach ht).2.2 l (List.mem_range.2 hl)
 
 /-- non-vacuity: a two-stage chain, one message, handler error at stage 1; the recorded events are accepted -/
-example : confRun ⟨[[1], [2]]⟩ (init (List.range 1) [⟨.handlerErr, 1⟩]) 0
-    [.srcCall 0, .srcRet 0 true, .hStart 0 0 1, .pubCall 0 0 1, .pubInner 0 0 1, .hStart 1 0 2, .fault 1 0 2 .handlerErr,
-     .pubRet 0 0 1 .ok, .settle 0 0 1 true, .settle 1 0 2 false, .hStart 1 0 3, .pubCall 1 0 3, .pubInner 1 0 3, .sinkRecv 0,
-     .pubRet 1 0 3 .ok, .settle 1 0 3 true, .finish] = .ok := by decide
+example : confRun ⟨[[1], [2]]⟩ [1, 1] (init (List.range 1) [⟨.handlerErr, 1⟩]) 0
+    [.srcCall 0, .srcRet 0 true, .hStart 0 0 1, .pubCall 0 0 1, .pubInner 0 0 1 0, .hStart 1 0 2, .fault 1 0 2 .handlerErr,
+     .pubAccepted 0 0 1 0, .pubRet 0 0 1 .ok, .settle 0 0 1 true, .settle 1 0 2 false, .hStart 1 0 3, .pubCall 1 0 3,
+     .pubInner 1 0 3 0, .sinkRecv 0, .pubAccepted 1 0 3 0, .pubRet 1 0 3 .ok, .settle 1 0 3 true, .finish] = .ok := by decide
+
+/-- non-vacuity with a multi-output stage: stage 0 emits two outputs per input (derived lineages 2·l, 2·l+1; the model
+    shape lists the successor twice), the publisher refuses the first batch once; both derived lineages reach the sink -/
+example : confRun (modelShape [[1]] [2]) [2] (init (List.range 1) [⟨.pubErr, 0⟩]) 0
+    [.srcCall 0, .srcRet 0 true, .hStart 0 0 1, .pubCall 0 0 1, .fault 0 0 1 .pubErr, .pubRet 0 0 1 .err, .settle 0 0 1 false,
+     .hStart 0 0 2, .pubCall 0 0 2, .pubInner 0 0 2 0, .pubInner 0 0 2 1, .sinkRecv 1, .sinkRecv 0, .pubAccepted 0 0 2 0,
+     .pubAccepted 0 0 2 1, .pubRet 0 0 2 .ok, .settle 0 0 2 true, .finish] = .ok := by decide
 
 end Wm.Pipeline
